@@ -68,6 +68,7 @@ class PatchSpec:
         self.git = git
         self.series_line = None
         self.text = None
+        self.early_poison = False   # a poisoned file patch is followed by another one for the same file
 
     def fails(self):
         return any(op.poison for op in self.ops)
@@ -286,6 +287,9 @@ class GenConfig:
         self.empty_dir_deletes = True
         self.p_second_fail = 0.0     # probability that a patch AFTER the first failing one is poisoned too (it is never reached
                                      # by a sequential push; a parallel push may run ahead into it)
+        self.p_early_poison = 0.0    # probability that a poisoned file patch may be one that a LATER file patch of the same patch follows
+                                     # (same file twice in one patch).  What the later one then does is not known by construction: only for
+                                     # checks that need neither the reject set nor the forced result
         self.__dict__.update(kw)
 
 
@@ -496,11 +500,13 @@ def _poison(r, patch, tree_before, work, cfg):
                 last_for[o.new_path] = o
                 last_for[o.path] = o
             cands = []
+            early = r.random() < cfg.p_early_poison
             for o in patch.ops:
                 if o.kind not in ("modify", "chmod", "rename") or not o.pre or o.pre == o.post:
                     continue
                 if last_for.get(o.path) is not o or last_for.get(o.new_path) is not o:
-                    continue
+                    if not (early and o.kind == "modify"):
+                        continue
                 ph = poisonable_hunks(op_hunks(o, patch.reverse), patch.reverse)
                 if ph:
                     cands.append((o, ph))
@@ -510,6 +516,8 @@ def _poison(r, patch, tree_before, work, cfg):
             for o, ph in r.sample(cands, k):
                 o.poison = "hunks"
                 o.poison_want = sorted(r.sample(ph, r.randint(1, len(ph))))
+                if last_for.get(o.path) is not o or last_for.get(o.new_path) is not o:
+                    patch.early_poison = True
             return
         if reason == "misordered":
             if patch.reverse:
